@@ -98,6 +98,12 @@ Section GenCall.
     mapM (fun u => u) (gen_us (fun n c x => enforce_col c n x) cds nets cols) =
     mapM (fun cn => enforce_col (fst cn) (snd cn) cols) (combine cds nets).
   Proof. unfold gen_us. rewrite mapM_map. reflexivity. Qed.
+
+  (* what a Solution holds: the given lists themselves; a single module replicated once per condition *)
+  Theorem gen_solution_nets_is_model {N Cd : Type} (net : N) (nets : list N) (cds : list Cd) :
+    gen_solution_nets (Some net) nets cds = nets_of_module net cds /\
+    gen_solution_nets None nets cds = nets /\ gen_solution_conditions cds = cds.
+  Proof. repeat split. Qed.
 End GenCall.
 
 Section C04gen.
